@@ -66,12 +66,35 @@ class _WriteProxy:
         self.__dict__["_f"] = f
         self.__dict__["_rel"] = rel
         self.__dict__["_text"] = text
+        self.__dict__["_buf"] = []          # user-space buffer of a BufferedWriter / TextIOWrapper
+        self.__dict__["_buflen"] = 0
 
     def write(self, data):
-        fs, f = self._fs, self._f
+        """Like Python's buffered writers: small writes collect in a user-space buffer (lost if the process is
+        killed before flush/close); once the buffer reaches the buffer size everything is handed to the OS."""
         n = len(data)
         if n == 0:
             return 0
+        p = self._fs.sim.current()
+        if p is not None and p.dead:
+            raise ProcessKilled()
+        self._buf.append(data)
+        self.__dict__["_buflen"] = self._buflen + n
+        if self._buflen >= self._fs.buffer_size:
+            self._drain()
+        return n
+
+    def _drain(self):
+        if not self._buf:
+            return
+        data = ("" if self._text else b"").join(self._buf)
+        self.__dict__["_buf"] = []
+        self.__dict__["_buflen"] = 0
+        self._deliver(data)
+
+    def _deliver(self, data):
+        fs, f = self._fs, self._f
+        n = len(data)
         chunk = fs.chunk
         pos = 0
         while pos < n:
@@ -103,15 +126,27 @@ class _WriteProxy:
         p = self._fs.sim.current()
         if p is not None and p.dead:
             return
+        self._drain()
         self._f.flush()
 
     def close(self):
+        p = self._fs.sim.current()
+        if not (p is not None and p.dead) and not self._f.closed:
+            try:
+                self._drain()                 # the final flush is a step like any other write: it can be killed
+            except ProcessKilled:
+                try:
+                    self._f.close()
+                except Exception:  # noqa
+                    pass
+                raise
         try:
             self._f.close()
         except Exception:  # noqa
             pass
 
     def truncate(self, size=None):
+        self._drain()
         self._fs._step("ftruncate", self._rel, size, mutating=True)
         r = self._f.truncate(size) if size is not None else self._f.truncate()
         self._fs.sim.record("ftruncate", self._rel, size)
@@ -192,11 +227,12 @@ class _ReadProxy:
 
 class SimFS:
     def __init__(self, sim, roots, chunk=65536, copy_bufsize=65536, permute_listing=False,
-                 proxy_reads=False, yield_stat=True):
+                 proxy_reads=False, yield_stat=True, buffer_size=8192):
         self.sim = sim
         self.roots = [os.path.realpath(r).rstrip("/") for r in roots]
         self.chunk = max(1, int(chunk))
         self.copy_bufsize = max(1, int(copy_bufsize))
+        self.buffer_size = max(1, int(buffer_size))   # io.DEFAULT_BUFFER_SIZE of Python's buffered writers
         self.permute_listing = permute_listing
         self.proxy_reads = proxy_reads
         self.yield_stat = yield_stat
